@@ -403,10 +403,10 @@ func c04HalfOpenPermits(c *Ctx) {
 		}
 	}
 	ix := BuildIndex(c.P)
-	allowed := map[string]bool{"circuitbreaker.(*halfOpenState).tryAcquirePermit": true, "circuitbreaker.(*halfOpenState).checkThresholdAndReleasePermit": true, "circuitbreaker.newHalfOpenState": true}
+	allowed := []string{"circuitbreaker.(*halfOpenState).tryAcquirePermit", "circuitbreaker.(*halfOpenState).checkThresholdAndReleasePermit", "circuitbreaker.newHalfOpenState"}
 	okW := true
 	for _, w := range ix.Writers(FieldRef{Type: "halfOpenState", Pkg: "circuitbreaker", Field: actualField("circuitbreaker", "halfOpenState", "permittedExecutions")}) {
-		if !allowed[c.fn(w)] {
+		if !ix.WithinNames(w, allowed...) {
 			okW = false
 			c.Fail("circuitbreaker.halfOpenState.permittedExecutions#writers", c.P.FuncPos(w), "the trial permit counter is written by "+c.fn(w), "")
 		}
@@ -421,11 +421,10 @@ func c04HalfOpenPermits(c *Ctx) {
 func c03StateOwner(c *Ctx) {
 	c.Rule("state-owner")
 	ix := BuildIndex(c.P)
-	allowed := map[string]bool{"circuitbreaker.(*circuitBreaker).transitionTo": true, "circuitbreaker.(*config).Build": true}
 	ok := true
 	ws := ix.Writers(FieldRef{Type: "circuitBreaker", Pkg: "circuitbreaker", Field: "state"})
 	for _, w := range ws {
-		if !allowed[c.fn(w)] {
+		if !ix.WithinNames(w, "circuitbreaker.(*circuitBreaker).transitionTo", "circuitbreaker.(*config).Build") {
 			ok = false
 			c.Fail("circuitbreaker.circuitBreaker.state", c.P.FuncPos(w), "the breaker's state is replaced by "+c.fn(w)+" (only Build and transitionTo may)", "")
 		}
@@ -454,14 +453,22 @@ func c03Edges(c *Ctx) {
 			continue
 		}
 		got := map[string]bool{}
-		for _, cal := range ix.Callers[fn] {
-			got[c.fn(cal)] = true
-		}
 		ok := true
-		for g := range got {
-			if !want[tr][g] {
+		for _, cal := range ix.Callers[fn] {
+			// the caller is one of the documented triggers, or a helper reachable only from them
+			found := false
+			for w := range want[tr] {
+				if ix.WithinNames(cal, w) {
+					got[w] = true
+					found = true
+				}
+			}
+			if !found && ix.WithinNames(cal, sortedKeys(want[tr])...) {
+				found = true
+			}
+			if !found {
 				ok = false
-				c.Fail("transition:"+tr, c.P.FuncPos(c.P.Func(g)), g+" triggers the transition '"+tr+"', which is not an edge of the documented state machine", "")
+				c.Fail("transition:"+tr, c.P.FuncPos(cal), c.fn(cal)+" triggers the transition '"+tr+"', which is not an edge of the documented state machine", "")
 			}
 		}
 		for w := range want[tr] {
@@ -965,6 +972,11 @@ func c03Constructors(c *Ctx) {
 		zero := ts.LinConst(0, u)
 		paths := ev.Run(fn)
 		for _, p := range paths {
+			if p.Exit != ExitReturn || len(p.Rets) != 1 {
+				ok = false
+				c.Undecided(c.fn(fn), c.P.FuncPos(fn), "a path of the constructor does not return (loop bound or panic)", pathTrace(ev, p))
+				continue
+			}
 			r := p.Rets[0]
 			perm := ev.LoadField(p.State, r, "permittedExecutions")
 			var want *T
@@ -978,7 +990,7 @@ func c03Constructors(c *Ctx) {
 				want = fc
 			}
 			mk := eventsWhere(p, func(e *Event) bool { return isCall(e, "newStats") })
-			if r.Op != "alloc" || want == nil || perm != want || len(mk) != 1 || mk[0].Args[2] != want || !isFalse(mk[0].Args[1]) || ev.LoadField(p.State, r, "stats") != mk[0].Res[0] || ev.LoadField(p.State, r, "breaker") != b {
+			if r.Op != "alloc" || want == nil || !sameUnder(ev, F, perm, want) || len(mk) != 1 || !sameUnder(ev, F, mk[0].Args[2], want) || !isFalse(mk[0].Args[1]) || ev.LoadField(p.State, r, "stats") != mk[0].Res[0] || ev.LoadField(p.State, r, "breaker") != b {
 				ok = false
 				c.Fail(c.fn(fn), c.P.FuncPos(fn), "a half-open state must start with fresh count-based stats and as many trial permits as its capacity (success capacity, else execution threshold, else failure capacity)", pathTrace(ev, p))
 			}
@@ -1016,13 +1028,18 @@ func c03Constructors(c *Ctx) {
 		fe, fc := ev.LoadField(s0, b, "config", "failureExecutionThreshold"), ev.LoadField(s0, b, "config", "failureThresholdingCapacity")
 		paths := ev.Run(fn)
 		for _, p := range paths {
+			if p.Exit != ExitReturn || len(p.Rets) != 1 {
+				ok = false
+				c.Undecided(c.fn(fn), c.P.FuncPos(fn), "a path of the constructor does not return (loop bound or panic)", pathTrace(ev, p))
+				continue
+			}
 			r := p.Rets[0]
 			mk := eventsWhere(p, func(e *Event) bool { return isCall(e, "newStats") })
 			want := fc
 			if p.State.Facts.Truth(ts, ts.Cmp("!=", fe, ts.LinConst(0, u))) == triT {
 				want = fe
 			}
-			if r.Op != "alloc" || len(mk) != 1 || mk[0].Args[2] != want || !isTrue(mk[0].Args[1]) || ev.LoadField(p.State, r, "stats") != mk[0].Res[0] {
+			if r.Op != "alloc" || len(mk) != 1 || !sameUnder(ev, p.State.Facts, mk[0].Args[2], want) || !isTrue(mk[0].Args[1]) || ev.LoadField(p.State, r, "stats") != mk[0].Res[0] {
 				ok = false
 				c.Fail(c.fn(fn), c.P.FuncPos(fn), "a closed state must start with fresh stats sized by the execution threshold, else the failure thresholding capacity, time-based when a period is configured", pathTrace(ev, p))
 			}
